@@ -560,3 +560,9 @@ Example C10_nonvacuous_giveup_then_publish : exists C C',
   rrun true (rinit 2) giveup_trace = Some C /\ all_cancelled C = true /\
   rstep true C (RPublish 1) = Some C'.
 Proof. exact giveup_then_next_writer_publishes. Qed.
+
+(* Print Assumptions for every theorem above that did not have its own line yet *)
+Print Assumptions C10_stage_drop_exits.
+Print Assumptions C10_stage_merge_exits.
+Print Assumptions C10_stage_fwd_exits.
+Print Assumptions C10_stage_pullid_exits.
